@@ -228,6 +228,12 @@ FViol(ev, r, ln) ==
         THEN <<[l |-> ln, prop |-> "C16", ctx |-> Ctx(r), k |-> ev.k, kind |-> sc.kind, comp |-> sc.comp, target |-> sc.target,
                 fault |-> ev.fault, persistent |-> ev.persistent, phase |-> FaultPhase(ev.log), symptom |-> "recovery_incomplete",
                 what |-> "the recovery output is not a complete valid file holding the records of the failed block", outs |-> recOut]>>
+        \* the block that could not be written stays buffered and is the block it was: values buffered meanwhile that it already
+        \* holds are found in its tables, so the recovery output's tables hold nothing twice (C11)
+        ELSE IF \E x \in recOut : "dups" \in DOMAIN x /\ x.dups > 0
+        THEN <<[l |-> ln, prop |-> "C11,C16", ctx |-> Ctx(r), k |-> ev.k, kind |-> sc.kind, comp |-> sc.comp, target |-> sc.target,
+                fault |-> ev.fault, persistent |-> ev.persistent, phase |-> FaultPhase(ev.log), symptom |-> "recovery_duplicates",
+                what |-> "the tables of the block written by the recovery hold equal entries", outs |-> recOut]>>
         ELSE <<>>)
 
 TraceInit == l = 1 /\ ref = [e |-> "none"] /\ viol = <<>> /\ execs = 0
